@@ -20,12 +20,12 @@ BATCH = 8
 RULE = ('one evaluation = one seeded simulated run: either 2-3 clients adding dyadic rationals to / reading / popping one Averager '
         '(shared object, own objects, processes; Cache or FanoutCache) interleaved by the seeded scheduler and checked for '
         'linearizability against (total, count); or a throttled function (count in {1,2,5} per seconds in {0.5,1,3}) called by 1-3 '
-        'tasks with seeded arrival patterns (bursts, idle gaps, steady overload) on the virtual clock, whose recorded start times must '
+        'tasks (threads of one process, or separate simulated processes that each open the directory and decorate their own copy of the function; str/bytes hash differently per process) with seeded arrival patterns (bursts, idle gaps, steady overload) on the virtual clock, whose recorded start times must '
         'satisfy starts(window) <= count + rate*length for every window and every call must start, including the calls in which the function raises (the admission is spent, the exception comes out); non-trivial = a context switch '
         '(Averager) / at least one call was delayed (throttle); distinct = SHA-256 of the seam event log')
 ASSUMPTIONS = ['throttle is given time_func/sleep_func bound to the virtual clock (the seam the recipe offers); a virtual sleep lasts at least the requested time plus >= 1 microsecond',
                'Averager values are dyadic rationals so sums are exact in any order']
-PROBES = ('throttle_delayed', 'throttle_calls', 'throttle_raising_calls', 'avg_pops', 'lock_wait')
+PROBES = ('throttle_delayed', 'throttle_calls', 'throttle_raising_calls', 'throttle_across_processes', 'avg_pops', 'lock_wait')
 TECHNIQUE = 'deterministic simulation: seeded schedules + linearizability against (total,count); virtual-clock arrival patterns with a window-bound oracle over recorded start times'
 LEVEL_TEXT = ('seeded exploration of adder/popper interleavings decided by a linearizability search, and of arrival patterns x rates on '
               'a virtual clock decided by the exact window bound over all pairs of recorded start times plus completion of every call.')
@@ -78,6 +78,9 @@ def gen_case(seed, tier):
            'expire': rng.choice((None, None, 100))}
     # in which calls the throttled function raises (the admission is spent all the same; the exception comes out unchanged)
     cfg['raises'] = [[rng.random() < 0.5 for _ in gaps] if rng.random() < 0.3 else [False] * len(gaps) for gaps in arrivals]
+    # callers as separate processes: each opens the directory itself and decorates its own copy of the function under the
+    # same name - one bucket shared through the cache, not through Python objects
+    cfg['procs'] = rng.random() < 0.4
     return {'seed': seed, 'cfg': cfg}
 
 
@@ -176,8 +179,10 @@ def run_throttle(case):
             last_read[sim.current.name if sim.current else None] = t
             return t
 
-        @dc.throttle(cache, count, seconds, name='thr', expire=cfg['expire'],
-                     time_func=time_func, sleep_func=seams.SIM_TIME.sleep)
+        def throttled(c):
+            return dc.throttle(c, count, seconds, name='thr', expire=cfg['expire'],
+                               time_func=time_func, sleep_func=seams.SIM_TIME.sleep)
+
         def work(who, boom=False):
             starts.append((last_read.get(who, sim.now), who))
             if cfg['work']:
@@ -187,9 +192,23 @@ def run_throttle(case):
             return who
 
         t_decorated = sim.now
+        plain_work = work
+        work = throttled(cache)(plain_work)
+        opened = []
+        decorated_at = [sim.now]
 
         def caller(i):
             def fn():
+                work = globals_work[0]
+                if cfg.get('procs'):
+                    own = dc.FanoutCache(world.path('c'), shards=cfg['shards']) if cfg['target'] == 'fanout' else dc.Cache(world.path('c'))
+                    work = throttled(own)(plain_work)
+                    opened.append(own)
+                    # decorating (re)fills the bucket - that is how the recipe initialises it - so every process decorates
+                    # before anyone calls: the bound below is about calls, not about start-up
+                    while len(opened) < len(cfg['arrivals']):
+                        sim.sleep(0.001)
+                    decorated_at[0] = max(decorated_at[0], sim.now)
                 for j, gap in enumerate(cfg['arrivals'][i]):
                     if gap:
                         sim.sleep(gap)
@@ -205,12 +224,15 @@ def run_throttle(case):
                 return True
             return fn
 
-        tasks = [sim.spawn('c%d' % i, 'p0', caller(i)) for i in range(len(cfg['arrivals']))]
+        globals_work = [work]
+        tasks = [sim.spawn('c%d' % i, 'p%d' % i if cfg.get('procs') else 'p0', caller(i)) for i in range(len(cfg['arrivals']))]
         incident = None
         try:
             sim.run()
         except SimIncident as inc:
             incident = inc
+        if cfg.get('procs'):
+            probes['throttle_across_processes'] = 1
         total_calls = sum(len(a) for a in cfg['arrivals'])
         if incident is not None:
             if incident.kind in ('stepcap', 'deadlock'):
